@@ -25,9 +25,9 @@ import (
 type call struct {
 	ops   []sop
 	fin   fin
-	amp   int           // derive amp*1000 child contexts before returning
-	reuse bool          // reuse one response object for all sends, overwrite it after each send
-	pass  string        // pass-through mode (pass.go): "wide" = the requests carry a field the handler's type does not declare
+	amp   int    // derive amp*1000 child contexts before returning
+	reuse bool   // reuse one response object for all sends, overwrite it after each send
+	pass  string // pass-through mode (pass.go): "wide" = the requests carry a field the handler's type does not declare
 	shape string
 	gate  chan struct{} // closed by the client driver once the client script has finished
 	done  chan struct{} // closed when the handler returns
@@ -35,6 +35,7 @@ type call struct {
 	phase   atomic.Int32 // 0 running, 1 blocked in recv, 2 blocked in wait, 3 returned
 	nrecvd  atomic.Int32 // messages the handler has received so far
 	entered atomic.Bool  // the handler has started (over gRPC a call cancelled at once may never reach it)
+	parked  atomic.Bool  // the handler has reached a W or G op
 
 	mu    sync.Mutex
 	log   []string
@@ -119,16 +120,6 @@ func (c *call) got(typed int, m proto.Message) string {
 	return wirePayload(m, c.shape == "sstream", c.pass == "wide")
 }
 
-func (f fin) err() error {
-	switch f.Kind {
-	case 'E':
-		return status.Error(codes.Code(f.Code), f.Msg)
-	case 'P':
-		return errors.New(f.Msg)
-	}
-	return nil
-}
-
 // abort: one of the handler's blocking calls failed because the call's context ended (client cancel /
 // deadline). Like most real handlers the scripted one returns the error it was given.
 func (c *call) abort(err error) error {
@@ -175,7 +166,18 @@ func (c *call) run(io_ sio) error {
 				c.sent = append(c.sent, m)
 				c.mu.Unlock()
 			}
+		case 'G':
+			// work of the handler's own that does not watch the call's context: parked until the client script is over
+			c.parked.Store(true)
+			c.phase.Store(2)
+			select {
+			case <-c.gate:
+			case <-time.After(5 * time.Second):
+				c.logf("gate-expired")
+			}
+			c.phase.Store(0)
 		case 'W':
+			c.parked.Store(true)
 			c.phase.Store(2)
 			select {
 			case <-ctx.Done():
@@ -251,7 +253,9 @@ func (u *unaryIO) send(n int) (proto.Message, error) {
 	u.res = &testproto.UnaryResponse{Msg: word(n)}
 	return u.res, nil
 }
-func (u *unaryIO) sendAny(proto.Message) error { return errors.New("a unary handler returns its typed response") }
+func (u *unaryIO) sendAny(proto.Message) error {
+	return errors.New("a unary handler returns its typed response")
+}
 func (u *unaryIO) recv() (int, proto.Message, error) {
 	if !u.first {
 		u.first = true
